@@ -1,12 +1,77 @@
+import HypatiaModel.ConcurrencyReads
+import Driver.Concurrency
 import Driver.Sess
 namespace Driver.ReadsS
-/-- reads cannot change a model state: they have type `State → Args → Result`.  The session only
-acknowledges; the observation is entirely on the implementation side. -/
-def step (_ : Unit) (toks : List String) : Unit × String :=
+open Hyp Hyp.CIdx Hyp.Alias Driver.ConcurrencyS
+
+/-!
+Session `reads` (C18).  In the pure models a read has type `State → Args → Result`, so for an
+ordinary read the session only acknowledges (`unchanged`); the observation is on the
+implementation side.  `read prov …` is answered from the **object-level** model: the catalog
+operations of the case are replayed on the heaps of persistent objects (`ConcurrencyIndex.lean`,
+`ConcurrencyText.lean`), the read runs on them (`ConcurrencyReads.lean`), and the answer is the
+provenance of the container it hands back – `stored` (a container of the index: two calls return
+the very same object) or `fresh` (allocated by the call).
+-/
+
+structure St where
+  cutoff : Nat := 10
+  x : Txs := {}
+
+def showProv : Prov → String
+  | .stored => "prov stored"
+  | .fresh => "prov fresh"
+  | .caller => "prov caller"
+
+/-- the word of `props/c09.py: WORDS[a % 10]` has an in-vocabulary id in text index `t` -/
+def wordWid (t : XTx) (a : Nat) : Option Nat :=
+  match AMap.get t.heap.wids (a % 10) with
+  | some wid => if (AMap.get t.heap.wordinfo wid).isSome then some wid else none
+  | none => none
+
+def prov (st : St) (what : String) (a : Nat) : Option Prov :=
+  let x := st.x
+  match what with
+  | "fdocids" => some (provF x.f.heap x.f.docids.2)
+  | "fni" => some (provF x.f.heap x.f.notIndexed.2)
+  | "feq" => some (provF x.f.heap (.obj (x.f.scan (fun v => v == Int.ofNat (a % 8))).2))
+  | "frange" => some (provF x.f.heap (.obj (x.f.scan (fun v => Int.ofNat (a % 4) ≤ v && v ≤ Int.ofNat (a % 4 + 3))).2))
+  | "kdocids" => some (provK x.k.heap x.k.docids.2)
+  | "kni" => some (provK x.k.heap x.k.notIndexed.2)
+  | "keq" => some (provK x.k.heap (.obj (x.k.searchOne (Int.ofNat (a % 5))).2))
+  | "kany" => some (provK x.k.heap (.obj (x.k.searchOr [Int.ofNat (a % 5), Int.ofNat ((a + 1) % 5)]).2))
+  | "cdocids" => some (provK x.c.heap x.c.docids.2)
+  | "cni" => some (provK x.c.heap x.c.notIndexed.2)
+  | "tapply" =>
+    match wordWid x.t a with
+    | none => some (Alias.trivial 0 true .fresh)                    -- `_trivial([])`: a new bucket
+    | some wid => some (provT x.t.heap (x.t.applyOkapi (fun _ w => w) id wid).2)
+  | "uapply" =>
+    match wordWid x.u a with
+    | none => some (Alias.trivial 0 true .fresh)
+    | some wid =>
+      match (x.u.applyCosine false id id wid).2 with
+      | some o => some (provT x.u.heap o)
+      | none => none
+  | _ => none
+
+def step (st : St) (toks : List String) : St × String :=
   match toks with
-  | "cfg" :: _ => ((), "ok")
-  | ["op"] => ((), "ok")
-  | ["read"] => ((), "unchanged")
-  | _ => ((), "bad-op")
-def sess : Sess := { σ := Unit, st := (), step := step }
+  | ["cfg", "cutoff", n] => match n.toNat? with | some n => ({ st with cutoff := n }, "ok") | none => (st, "bad-op")
+  | "cfg" :: _ => (st, "ok")
+  | ["op"] => (st, "ok")                                -- (old replays: no object-level replay)
+  | "op" :: _ :: rest =>
+    match applyOp 2 st.cutoff st.x rest with
+    | some x => ({ st with x := x }, "ok")
+    | none => (st, "bad-op")
+  | ["read"] => (st, "unchanged")
+  | ["read", "prov", what, a] =>
+    match a.toNat? with
+    | none => (st, "bad-op")
+    | some a => match prov st what a with
+      | some p => (st, showProv p)
+      | none => (st, "bad-op")
+  | _ => (st, "bad-op")
+
+def sess : Sess := { σ := St, st := {}, step := step }
 end Driver.ReadsS
